@@ -296,6 +296,11 @@ func (m *moduleEngine) DoneInstantiation() {
 // FunctionInstanceReference implements wasm.ModuleEngine.
 func (m *moduleEngine) FunctionInstanceReference(funcIndex wasm.Index) wasm.Reference {
 	if funcIndex < m.module.Source.ImportFunctionCount {
+		// Reference the function instance of the defining module: the imported-function slot of this module's opaque
+		// area has no indexInModule, which LookupFunction needs to find the function again from a table entry.
+		if imported := &m.importedFunctions[funcIndex]; imported.me != nil {
+			return imported.me.FunctionInstanceReference(imported.indexInModule)
+		}
 		begin, _, _ := m.parent.offsets.ImportedFunctionOffset(funcIndex)
 		return uintptr(unsafe.Pointer(&m.opaque[begin]))
 	}
